@@ -741,7 +741,7 @@ pub fn c19_case(tier: &str, seed: u64, case: u64) -> CaseResult {
 			match (s + vi) % 4 {
 				0 => seq.insert(1.min(seq.len()), headers_msg(&world, *rng.pick(&[1usize, 31, 32, 33]), v)),
 				1 => {
-					let sz = *rng.pick(&[1usize, 7_999, 8_000, 8_001, 20_000, 47_999, 48_000, 48_001, 50_000, 96_000, 100_001]);
+					let sz = *rng.pick(&[0usize, 1, 7_999, 8_000, 8_001, 20_000, 47_999, 48_000, 48_001, 50_000, 96_000, 100_001]);
 					let pos = rng.usize_below(seq.len() + 1);
 					seq.insert(pos, archive_msg(&world, sz, v, &mut rng));
 				}
